@@ -12,12 +12,14 @@
      - tie  : which of two roots of EQUAL weight becomes the root in UnionFind.union
               (`sorted({self[x] for x in objects}, key=weights, reverse=True)`: a stable sort of a
               two-element *set*, so on equal weights the set's iteration order decides).
-   What is not observable and is not represented: path compression.  networkx keeps a parent forest
-   and compresses a path on every lookup; `state_sets[x]` returns the root of x's tree and nothing
-   else of the forest can be seen by __eq__.  The model keeps the parent map fully compressed (the
-   parent of every element is the root of its tree; `union` re-points the members of the losing
-   tree), which returns the same roots as any forest with the same roots.  The weights ARE represented
-   (they decide which root survives, and the surviving root is what gets pushed on the stack). *)
+   Path compression and the shape of the parent forest are not observable: `state_sets[x]` returns the
+   root of x's tree and nothing else of the forest can be seen by __eq__.  Two union-find models are
+   given and proved interchangeable (Proofs/HK.v, hkf_run_eq): the FOREST model follows networkx
+   statement by statement (parent pointers, the walk to the root, compression of the walked path,
+   `parents[r] = root` on union) and is the one on the wire; the FLAT model keeps the parent of every
+   element equal to the root of its tree (union re-points the members of the losing tree) and is the
+   one the correctness proof is about.  The weights are represented in both (they decide which root
+   survives a union, and the surviving root is what gets pushed on the stack). *)
 From Coq Require Import List Arith Bool.
 From AV Require Import Base.Util Spec.Lang Spec.FA Model.Decide Model.Product Model.Subset.
 Import ListNotations.
@@ -47,7 +49,7 @@ Section HK.
   Definition estep (p : elem) (a : nat) : elem :=
     match p with inl x => inl (stepX x a) | inr y => inr (stepY y a) end.
 
-  (* ---- networkx.utils.union_find.UnionFind ---- *)
+  (* ---- networkx.utils.union_find.UnionFind: the data, and the FLAT operations ---- *)
   Fixpoint elookup {B} (k : elem) (l : list (elem * B)) : option B :=
     match l with
     | [] => None
@@ -61,7 +63,7 @@ Section HK.
   Definition uf_new (els : list elem) : uf :=
     mkuf (map (fun x => (x, x)) els) (map (fun x => (x, 1)) els).
 
-  (* __getitem__: an unknown object becomes a singleton (and is stored); otherwise the root *)
+  (* flat __getitem__: an unknown object becomes a singleton (and is stored); otherwise its parent, which is the root *)
   Definition uf_find (u : uf) (x : elem) : elem * uf :=
     match elookup x (uf_parents u) with
     | None => (x, mkuf ((x, x) :: uf_parents u) ((x, 1) :: uf_weights u))
@@ -73,8 +75,8 @@ Section HK.
 
   Variable tie : elem -> elem -> bool.   (* equal weights: true = the first root survives *)
 
-  (* union(a, b): roots of both (unknown objects are added); the heavier root survives, the other
-     tree is hung below it and the weights are added; nothing happens when the roots coincide *)
+  (* flat union(a, b): roots of both (unknown objects are added); the heavier root survives, every member
+     of the other tree is re-pointed to it and the weights are added; nothing happens when the roots coincide *)
   Definition uf_union (u : uf) (a b : elem) : uf :=
     let (ra, u1) := uf_find u a in
     let (rb, u2) := uf_find u1 b in
@@ -88,35 +90,78 @@ Section HK.
       mkuf (map (fun kv => (fst kv, if eqbE (snd kv) other then root else snd kv)) (uf_parents u2))
            ((root, wa + wb) :: uf_weights u2).
 
-  (* ---- the loop ---- *)
-  Variable syms : list nat.              (* iteration order of self.input_symbols *)
-
-  Definition hk_state : Type := (uf * list (elem * elem))%type.   (* state_sets, pair_stack (top first) *)
-
-  (* body of `for symbol in self.input_symbols` *)
-  Definition hk_symbol (qa qb : elem) (st : hk_state) (a : nat) : hk_state :=
-    let (r1, u1) := uf_find (fst st) (estep qa a) in
-    let (r2, u2) := uf_find u1 (estep qb a) in
-    if eqbE r1 r2 then (u2, snd st)
-    else (uf_union u2 r1 r2, (r1, r2) :: snd st).
-
-  (* `while pair_stack:` one unit of fuel per popped pair *)
-  Fixpoint hk_loop (fuel : nat) (st : hk_state) : res bool :=
-    match snd st with
-    | [] => Ok true
-    | (qa, qb) :: rest =>
-      match fuel with
-      | 0 => Err Fuel
-      | S f =>
-        if xorb (efinal qa) (efinal qb) then Ok false
-        else hk_loop f (fold_left (hk_symbol qa qb) syms (fst st, rest))
+  (* ---- the same structure as networkx keeps it: a parent forest with path compression ---- *)
+  (* `while root != object: path.append(object); object = root; root = self.parents[object]`
+     bounded by the number of entries (never reached before the root: Proofs/HK.v walk_spec) *)
+  Fixpoint f_walk (n : nat) (p : list (elem * elem)) (obj : elem) (path : list elem) : elem * list elem :=
+    match n with
+    | 0 => (obj, path)
+    | S n' =>
+      match elookup obj p with
+      | None => (obj, path)
+      | Some root => if eqbE root obj then (obj, path) else f_walk n' p root (obj :: path)
       end
     end.
 
-  Definition hk_run (fuel : nat) (x0 : X) (y0 : Y) : res bool :=
-    let a : elem := inl x0 in
-    let b : elem := inr y0 in
-    hk_loop fuel (uf_union (uf_new [a; b]) a b, [(a, b)]).
+  (* __getitem__: unknown object -> new singleton; otherwise walk up, then
+     `for ancestor in path: self.parents[ancestor] = root` (a dict update = an entry in front) *)
+  Definition fuf_find (u : uf) (x : elem) : elem * uf :=
+    match elookup x (uf_parents u) with
+    | None => (x, mkuf ((x, x) :: uf_parents u) ((x, 1) :: uf_weights u))
+    | Some _ =>
+      let (root, path) := f_walk (S (length (uf_parents u))) (uf_parents u) x [] in
+      (root, mkuf (map (fun anc => (anc, root)) path ++ uf_parents u) (uf_weights u))
+    end.
+
+  (* union: `self.weights[root] += self.weights[r]; self.parents[r] = root` *)
+  Definition fuf_union (u : uf) (a b : elem) : uf :=
+    let (ra, u1) := fuf_find u a in
+    let (rb, u2) := fuf_find u1 b in
+    if eqbE ra rb then u2
+    else
+      let wa := uf_weight u2 ra in
+      let wb := uf_weight u2 rb in
+      let first := if Nat.ltb wb wa then true else if Nat.ltb wa wb then false else tie ra rb in
+      let root := if first then ra else rb in
+      let other := if first then rb else ra in
+      mkuf ((other, root) :: uf_parents u2) ((root, wa + wb) :: uf_weights u2).
+
+  (* ---- the loop, over either union-find ---- *)
+  Section Loop.
+    Variable find : uf -> elem -> elem * uf.
+    Variable union : uf -> elem -> elem -> uf.
+    Variable syms : list nat.              (* iteration order of self.input_symbols *)
+
+    Definition hk_state : Type := (uf * list (elem * elem))%type.   (* state_sets, pair_stack (top first) *)
+
+    (* body of `for symbol in self.input_symbols` *)
+    Definition hk_symbol (qa qb : elem) (st : hk_state) (a : nat) : hk_state :=
+      let (r1, u1) := find (fst st) (estep qa a) in
+      let (r2, u2) := find u1 (estep qb a) in
+      if eqbE r1 r2 then (u2, snd st)
+      else (union u2 r1 r2, (r1, r2) :: snd st).
+
+    (* `while pair_stack:` one unit of fuel per popped pair *)
+    Fixpoint hk_loop (fuel : nat) (st : hk_state) : res bool :=
+      match snd st with
+      | [] => Ok true
+      | (qa, qb) :: rest =>
+        match fuel with
+        | 0 => Err Fuel
+        | S f =>
+          if xorb (efinal qa) (efinal qb) then Ok false
+          else hk_loop f (fold_left (hk_symbol qa qb) syms (fst st, rest))
+        end
+      end.
+
+    Definition hk_run (fuel : nat) (x0 : X) (y0 : Y) : res bool :=
+      let a : elem := inl x0 in
+      let b : elem := inr y0 in
+      hk_loop fuel (union (uf_new [a; b]) a b, [(a, b)]).
+  End Loop.
+
+  Definition hk_run_flat := hk_run uf_find uf_union.      (* proof model *)
+  Definition hk_run_forest := hk_run fuf_find fuf_union.  (* networkx as coded *)
 End HK.
 
 (* ---- DFA.__eq__ ----
@@ -129,7 +174,7 @@ Definition hk_fuel (A B : dfa) : nat := S (S (length (d_states A)) + S (length (
 Definition hk_eq_gen (tie : option nat + option nat -> option nat + option nat -> bool) (syms : list nat)
            (A B : dfa) : res bool :=
   guard_syms A B
-    (hk_run (option nat) (option nat) (eqb_opt Nat.eqb) (eqb_opt Nat.eqb)
+    (hk_run_forest (option nat) (option nat) (eqb_opt Nat.eqb) (eqb_opt Nat.eqb)
             (ostep A) (ostep B) (ofinal A) (ofinal B) tie syms
             (hk_fuel A B) (Some (d_init A)) (Some (d_init B))).
 
@@ -151,7 +196,7 @@ Definition nfa_hk_fuel (A B : nfa) : nat :=
 Definition nfa_hk_eq_gen (tie : list nat + list nat -> list nat + list nat -> bool) (syms : list nat)
            (A B : nfa) : res bool :=
   if nsame_syms A B
-  then hk_run (list nat) (list nat) (eqb_list Nat.eqb) (eqb_list Nat.eqb)
+  then hk_run_forest (list nat) (list nat) (eqb_list Nat.eqb) (eqb_list Nat.eqb)
               (nset_step A) (nset_step B) (nset_final_cl A) (nset_final_cl B) tie syms
               (nfa_hk_fuel A B) (nset_init A) (nset_init B)
   else Err Mismatch.
